@@ -51,11 +51,19 @@ def check_arms(res, pid, where, o, expected, src):
         seen_callees = []
         for a, m in zip(arms, ms):
             pat, body = norm(a["pat"]), norm(a["body"])
-            pm = re.match(r"^(%s)\{((?:%s:%s,)*)\}$" % (ID, ID, ID), pat)
+            pm = re.match(r"^(%s)\{((?:%s(?::%s)?,)*)\}$" % (ID, ID, ID), pat)
             if not pm:
                 bad("unexpected arm pattern `%s`" % a["pat"])
                 continue
-            binds = dict(x.split(":") for x in pm.group(2).split(",") if x)
+            # `field: binder` or the shorthand `field` (binder == field)
+            binds = {}
+            for x in pm.group(2).split(","):
+                if x:
+                    f, _, b = x.partition(":")
+                    binds[f] = b or f
+            shadow = sorted(set(binds.values()) & {"contract", "ctx", "self"})
+            if shadow:
+                bad("arm for `%s` binds a field to `%s`, shadowing the dispatch function's own local" % (m.name, shadow), cls="shadow")
             if kind == "query":
                 bm = re.match(r"^sylvia::cw_std::to_json_binary\(&contract\.(%s)\(Into::into\(ctx\)((?:,%s)*),?\)\?\)\.map_err\(Into::into\)$" % (ID, ID), body)
             else:
